@@ -511,16 +511,17 @@ impl super::MainState {
                 )
                 .await?;
             }
-            if end {
-                self.feed_msg(
-                    &mut conn_state.stream,
-                    RplEndOfNames366 {
-                        client,
-                        channel: channel_name,
-                    },
-                )
-                .await?;
-            }
+        }
+        // send end of names even if channel is secret - like for not existing channel
+        if end {
+            self.feed_msg(
+                &mut conn_state.stream,
+                RplEndOfNames366 {
+                    client,
+                    channel: channel_name,
+                },
+            )
+            .await?;
         }
         Ok(())
     }
